@@ -75,6 +75,11 @@ CHECKS = {
         technique="exhaustive enumeration of all segmentations (2^(N-1) for N<=18 bytes, <=2/3 cuts for longer streams) of sequences of 1-3 client frames fed to the real WebSocketTemporaryHandler; frame writer/reader enumerated over opcodes x mask x boundary lengths against an independent RFC 6455 codec",
         text="348 frame sequences x every way of cutting the byte stream into reads (3.5e6 segmentations quick): the endpoint must see every frame once, in order, unmasked, and no read may raise; first segmentation of each sequence also through HTTPFactory's Channel.dataReceived. Codec: 16 (quick) / ~3900 (thorough) payload lengths incl. 125/126/127 and 65535/65536 x 5 opcodes x mask 0/1 x keys.",
         note="frames with fin=0 (message fragmentation) are outside the statement; client frames come from the reference encoder"),
+    "C06": dict(
+        engine="enum+bfs+mcx", category="model_checking", design="5/C06",
+        technique="exhaustive enumeration of every payload length 0..3P+20 x MTUs x 3 contents through the real split/reassembly code; all permutations and single duplications of the datagrams of 10 message sets at a fresh receiver; deviation-bounded exploration (<=2 of drop/dup/delay + blackouts) of two fragmented messages in flight on the real stack",
+        text="Lengths: 3.6e4 (quick, 4 MTUs) / 1.2e5 (14 MTUs) cases incl. all-zero and header-look-alike contents, single-datagram rule, fragment size, limit and limit+1. Orders: 6.5e3 arrival orders. Faults: 4.7e3 (quick) executions; every delivery checked byte-for-byte against the multiset sent (no fabrication, no duplication), lossless runs must deliver everything.",
+        note="peer assumed honest (authenticated); <=2 deviations in the fault part"),
 }
 
 NOT_YET = {
